@@ -321,15 +321,39 @@ def check(case, ctx):
     res.n = 1
     v, first, linkfault = vector(case)
     pipes, mode = shape(case)
-    obs = observe(ctx, case)
-    if obs["timeout"]:
-        again = [obs] + [observe(ctx, case) for _ in range(2)]
-        res.n += 2
-        if all(o["timeout"] for o in again):
-            res.fail = dict(sig="hang", msg="the driver did not finish within %d s (3 times): %s\nrecords: %s"
-                            % (HANG_S, describe(case), [(r.get("tool"), r.get("n"), r.get("beh")) for r in obs["recs"]]))
-            res.sample = describe(case, obs)
-            return res
+    # Hang rule: no completion within HANG_S, reproduced 3 times.  The number of timeouts seen for a vector
+    # is kept in the run's scratch directory, so that the runner's confirmation calls (and Hypothesis
+    # re-running a vector while shrinking) add to the count instead of paying 3 x HANG_S again; once one
+    # vector of this run has been confirmed 3 times, further vectors are reported after their first
+    # timeout and reach 3 reproductions when the runner confirms them.
+    mark = os.path.join(ctx.tmp, "hang-" + sha(case))
+    confirmed = os.path.join(ctx.tmp, "hang-confirmed")
+    nto = 0
+    try:
+        with open(mark) as f:
+            nto = int(f.read() or 0)
+    except (OSError, ValueError):
+        pass
+    obs = None
+    while nto < 3:
+        obs = observe(ctx, case)
+        res.n += 1
+        if not obs["timeout"]:
+            break
+        nto += 1
+        with open(mark, "w") as f:
+            f.write(str(nto))
+        if os.path.exists(confirmed):
+            break
+    res.n = max(res.n - 1, 1)
+    if nto >= 3 or (obs is not None and obs["timeout"]):
+        if nto >= 3:
+            open(confirmed, "w").close()
+        res.fail = dict(sig="hang", msg="the driver did not finish within %d s (%d time(s)): %s" % (HANG_S, nto, describe(case)))
+        res.sample = describe(case)
+        return res
+    if nto:
+        os.unlink(mark)
         res.discard.append("timeout-not-reproduced")
         return res
     faults = [(k, b) for k, (b, _) in v.items() if b != "ok"]
